@@ -233,6 +233,9 @@ def long_chain(L: int, lo: int = 0, hi: int = 10 ** 9, twin: bool = False, real:
     unspent-output entry whatever its depth."""
     env = Env(real=real)
 
+    def wide(kind: int, n: int) -> bytes:
+        return bytes([kind]) + n.to_bytes(2, "big") + bytes([0xA5]) * 29        # tok() distinguishes 256 values only
+
     def check_long_chain(p: int) -> bool:
         """
         post: _
@@ -243,14 +246,14 @@ def long_chain(L: int, lo: int = 0, hi: int = 10 ** 9, twin: bool = False, real:
         cs = env.empty_state()
         for i in range(L):
             prev = ZERO32 if i == 0 else blocks[i - 1].hash()
-            b = env.block(i, prev, [env.coinbase(i, [], tok(TX, i))], tok(BLK, i))
+            b = env.block(i, prev, [env.coinbase(i, [], wide(TX, i))], wide(BLK, i))
             blocks.append(b)
             cs = cs.add_block_no_validation(b)
         par = blocks[p]
         try:
-            f1 = env.block(p + 1, par.hash(), [env.coinbase(p + 1, [], tok(TX, 1000))], tok(0xB7, 1))
+            f1 = env.block(p + 1, par.hash(), [env.coinbase(p + 1, [], wide(TX, 60000))], tok(0xB7, 1))
             cs = cs.add_block_no_validation(f1)
-            f2 = env.block(p + 2, f1.hash(), [env.coinbase(p + 2, [], tok(TX, 1001))], tok(0xB7, 2))
+            f2 = env.block(p + 2, f1.hash(), [env.coinbase(p + 2, [], wide(TX, 60001))], tok(0xB7, 2))
             cs = cs.add_block_no_validation(f2)
         except Exception:
             return False
